@@ -458,9 +458,15 @@ package rlwe
 // The index table of a Galois element is built lazily by CheckAndGetGaloisKey; the automorphism that
 // follows reads it from the SAME evaluator (property C11: with the key present the operation does
 // not fail).  So on success the evaluator the caller holds has an index map.
+//@ afunc EvaluationKeySet.GetGaloisKey
+//@   trusted a key set hands out the Galois key it holds for the element (NAMED uf_gk: a function of the key set and of the element), or an error: reads only
+//@   assigns
+//@   ensures implies(isnil(err), contentid(evk.EvaluationKey.GadgetCiphertext) == uf_gk(contentid(this), galEl))
+
 //@ afunc Evaluator.CheckAndGetGaloisKey
-//@   property C11
+//@   property C11 C04
 //@   ensures implies(isnil(err), !isnil(eval.automorphismIndex))
+//@   ensures implies(isnil(err), contentid(evk.EvaluationKey.GadgetCiphertext) == uf_gk(contentid(eval.EvaluationKeySet), galEl))
 
 //@ afunc Parameters.SolveDiscreteLogGaloisElement
 //@   trusted opaque at the abstract level (only used to format an error message here)
@@ -655,5 +661,50 @@ package rlwe
 //
 
 //@ afunc Evaluator.GadgetProduct
-//@   trusted opaque at the abstract level (the gadget product; its digit arithmetic is under the contracts of C02): writes the output ciphertext only
-//@   assigns ct
+//@   trusted opaque at the abstract level (the gadget product; its digit arithmetic is under the contracts of C02): writes the two components of the output ciphertext only, in the domain the output's metadata say, out of the Montgomery domain; their values are NAMED as functions of the polynomial and of the gadget ciphertext (uf_gp0, uf_gp1)
+//@   assigns ct.Value[0], ct.Value[1]
+//@   ensures val(ct.Value[0]) == uf_gp0(old(val(cx)), contentid(gadgetCt)) && val(ct.Value[1]) == uf_gp1(old(val(cx)), contentid(gadgetCt))
+//@   ensures indom(ct.Value[0], ct.MetaData.CiphertextMetaData.IsNTT) && indom(ct.Value[1], ct.MetaData.CiphertextMetaData.IsNTT) && mexp(ct.Value[0]) == 0 && mexp(ct.Value[1]) == 0
+
+//@ afunc EvaluationKeySet.GetRelinearizationKey
+//@   trusted a key set hands out the relinearisation key it holds (NAMED uf_rlk: a function of the key set), or an error: reads only
+//@   assigns
+//@   ensures implies(isnil(err), contentid(evk.EvaluationKey.GadgetCiphertext) == uf_rlk(contentid(this)))
+
+// ==== property C04, per-call structure of key switching: the gadget product of the RIGHT component with the
+// ==== RIGHT key is what is added to the RIGHT components, in place and out of place; the output takes the
+// ==== metadata of the input.  The gadget product is NAMED (uf_gp0, uf_gp1), not interpreted.
+//@ afunc Evaluator.ApplyEvaluationKey
+//@   property C04
+//@   case len(ctIn.Value) == 2 && len(opOut.Value) == 2
+//@   case len(ctIn.Value) == 2 ; alias opOut = ctIn
+//@   requires len(ctIn.Value[0].Coeffs) >= 1 && len(opOut.Value[0].Coeffs) >= 1 && len(ctIn.Value[0].Coeffs[0]) == len(opOut.Value[0].Coeffs[0])
+//@   requires indom(ctIn.Value[0], ctIn.MetaData.CiphertextMetaData.IsNTT) && indom(ctIn.Value[1], ctIn.MetaData.CiphertextMetaData.IsNTT) && mexp(ctIn.Value[0]) == 0 && mexp(ctIn.Value[1]) == 0
+//@   let g = old(contentid(evk.GadgetCiphertext))
+//@   ensures implies(isnil(err), val(opOut.Value[0]) == old(val(ctIn.Value[0])) + uf_gp0(old(val(ctIn.Value[1])), g) && val(opOut.Value[1]) == uf_gp1(old(val(ctIn.Value[1])), g))
+//@   ensures implies(isnil(err), iff(opOut.MetaData.CiphertextMetaData.IsNTT, old(ctIn.MetaData.CiphertextMetaData.IsNTT)) && sameval(opOut.MetaData.PlaintextMetaData.Scale, old(ctIn.MetaData.PlaintextMetaData.Scale)))
+
+//@ afunc Evaluator.Relinearize
+//@   property C04
+//@   nilable
+//@   case len(ctIn.Value) == 3 && len(opOut.Value) == 2
+//@   case len(ctIn.Value) == 3 && len(opOut.Value) == 3
+//@   case len(ctIn.Value) == 3 ; alias opOut = ctIn
+//@   requires !isnil(ctIn.MetaData) && !isnil(opOut.MetaData)
+//@   requires indom(ctIn.Value[0], ctIn.MetaData.CiphertextMetaData.IsNTT) && indom(ctIn.Value[1], ctIn.MetaData.CiphertextMetaData.IsNTT) && indom(ctIn.Value[2], ctIn.MetaData.CiphertextMetaData.IsNTT) && mexp(ctIn.Value[0]) == 0 && mexp(ctIn.Value[1]) == 0 && mexp(ctIn.Value[2]) == 0
+//@   let g = uf_rlk(contentid(eval.EvaluationKeySet))
+//@   ensures implies(isnil(err), len(opOut.Value) == 2)
+//@   ensures implies(isnil(err), val(opOut.Value[0]) == old(val(ctIn.Value[0])) + uf_gp0(old(val(ctIn.Value[2])), g) && val(opOut.Value[1]) == old(val(ctIn.Value[1])) + uf_gp1(old(val(ctIn.Value[2])), g))
+//@   ensures implies(isnil(err), iff(opOut.MetaData.CiphertextMetaData.IsNTT, old(ctIn.MetaData.CiphertextMetaData.IsNTT)) && sameval(opOut.MetaData.PlaintextMetaData.Scale, old(ctIn.MetaData.PlaintextMetaData.Scale)))
+
+// ---- the automorphism of a ciphertext (coefficient domain): key switching with the key of the element, then
+// ---- the automorphism of BOTH components; the automorphism of a ring element is NAMED (uf_autom)
+//@ afunc Evaluator.Automorphism
+//@   property C04
+//@   case len(ctIn.Value) == 2 && len(opOut.Value) == 2
+//@   case len(ctIn.Value) == 2 ; alias opOut = ctIn
+//@   requires galEl != 1 && !ctIn.MetaData.CiphertextMetaData.IsNTT
+//@   requires iscoef(ctIn.Value[0]) && iscoef(ctIn.Value[1]) && mexp(ctIn.Value[0]) == 0 && mexp(ctIn.Value[1]) == 0 && dom(ctIn.Value[0]) == 0 && dom(ctIn.Value[1]) == 0
+//@   let g = uf_gk(contentid(eval.EvaluationKeySet), galEl)
+//@   ensures implies(isnil(err), val(opOut.Value[0]) == uf_autom(old(val(ctIn.Value[0])) + uf_gp0(old(val(ctIn.Value[1])), g), galEl) && val(opOut.Value[1]) == uf_autom(uf_gp1(old(val(ctIn.Value[1])), g), galEl))
+//@   ensures implies(isnil(err), iff(opOut.MetaData.CiphertextMetaData.IsNTT, old(ctIn.MetaData.CiphertextMetaData.IsNTT)) && sameval(opOut.MetaData.PlaintextMetaData.Scale, old(ctIn.MetaData.PlaintextMetaData.Scale)))
